@@ -14,6 +14,20 @@ CHECKS = {
   "nil tag maps are outside the contracts (requires tags != nil); MatchFile's specification is close to the code (spec-near) except for the OS-selection rule; "
   "bounded: ShouldBuild vs go/build/constraint over blocks of up to 4 (quick) / 5 (thorough) lines from an 8-line vocabulary and 4 tag sets",
   "contract-based deductive verification (VCs over go/ssa incl. a recursive spec function and a rune-iteration invariant, z3/cvc5) plus a labelled bounded stand-in for ShouldBuild's block structure"),
+ "C06": ("5 C06",
+  "Per-call contracts over a ghost lock state fdMode[descriptor]: filelock.lock returns nil only after a successful flock with the requested type (EINTR retried, failures leave the state unchanged); "
+  "openFile/OpenFile/Open/Create/Edit return a fresh, open descriptor holding exactly the lock its flags demand (write access => exclusive, otherwise shared) and touch no other descriptor; "
+  "closeFile unlocks before closing; File.Close releases on the first call and touches nothing on later calls. Proved for all flags, names and failure outcomes of the underlying calls.",
+  "assumed: flock(2) gives mutual exclusion between open file descriptions holding these modes (kernel semantics, NFS, fcntl interaction are outside the model); extern contracts of os.OpenFile, (*os.File).Close/Fd, syscall.Flock over the ghost state; "
+  "bit masks of symbolic flags via uninterpreted band/bandnot/bor with range/single-bit axioms; Mutex.Lock is not yet under contract; exclusion across processes itself follows only on paper from the per-descriptor statement",
+  "contract-based deductive verification: ghost typestate per descriptor, call-site obligations, loop invariant for the EINTR retry loop; z3/cvc5"),
+ "C07": ("5 C07",
+  "Transform is proved failure-atomic: with at most one failing file operation (ghost failBudget == 1; a failing WriteAt may have written any prefix) and for every old/new length relation, an error return leaves bytes and length of the file as they were, "
+  "and a nil return leaves exactly what t returned; the deferred rollback closure is verified against its own contract and applied at every exit. Lock discipline is proved as call-site obligations: O_TRUNC is stripped from the open call and truncation happens only under the lock, "
+  "Read reads under the shared lock and Write/Transform read, write and truncate only under the exclusive lock of a descriptor opened by the same call.",
+  "assumed: byte-level ghost file model and step contracts of (*os.File).WriteAt/Truncate, io.ReadAll/io.Copy on a *File, os.OpenFile; t does not modify its argument or the file (callee clause); "
+  "linearizability of concurrent Read/Write/Transform is NOT decided by contracts: it follows on paper from the proved lock discipline plus flock exclusion (two-phase locking); Write's contents are left abstract (io.Copy)",
+  "contract-based deductive verification with a single-failure ghost budget over atomic file steps (all failure points and length relations at once), closure contracts, call-site typestate obligations; z3/cvc5"),
  "C15": ("5 C15",
   "Contract on txtar.Write over a ghost file-system model: every file that exists afterwards and did not before lies at or below dir (lexically), "
   "files that existed are neither removed nor changed (the open uses O_CREATE|O_EXCL, checked as a call-site obligation), a nil error implies that no entry name was absolute or climbed out through '..', "
